@@ -61,6 +61,29 @@ def _collect_sets(sc: _Scope) -> None:
             sc.set_names.setdefault(n.target.name, []).append(n)
 
 
+def _is_primary(e: nodes.Node) -> bool:
+    """a name, attribute / item access or call chain: substituting it for a variable needs no parentheses, so a loop over a `set`
+    variable and a loop over the expression itself read the same"""
+    return isinstance(e, (nodes.Name, nodes.Getattr, nodes.Getitem, nodes.Call, nodes.Const))
+
+
+def _is_empty_literal(e: nodes.Node | None) -> bool:
+    return (isinstance(e, (nodes.List, nodes.Tuple)) and not e.items) or (isinstance(e, nodes.Const) and e.value in ("", (), None)) \
+        or e is None
+
+
+def _elem_source(e: nodes.Node) -> nodes.Node:
+    """the part of an iterable expression its elements come from: a conditional with an empty alternative yields the other one"""
+    while isinstance(e, nodes.CondExpr):
+        if _is_empty_literal(e.expr2) and not _is_empty_literal(e.expr1):
+            e = e.expr1
+        elif _is_empty_literal(e.expr1) and not _is_empty_literal(e.expr2):
+            e = e.expr2
+        else:
+            break
+    return e
+
+
 def _rename_expr(e: nodes.Node, env: dict[str, str]) -> None:
     for x in [e] + list(e.find_all((nodes.Name, nodes.NSRef))):
         if isinstance(x, (nodes.Name, nodes.NSRef)) and x.name in env:
@@ -72,8 +95,20 @@ def _walk(body: list[nodes.Node], env: dict[str, str], sc: _Scope, active_loops:
         if isinstance(n, nodes.Macro):
             continue
         if isinstance(n, nodes.For):
+            orig = n.iter.name if isinstance(n.iter, nodes.Name) else None
             _rename_expr(n.iter, env)
             it = _text(n.iter)
+            # the loop variable is named by where its elements come from: an alternative that is an empty literal contributes none,
+            # so `for x in ([] if c else XS)` - written inline or through a `set` variable - reads as a loop over XS
+            src = n.iter
+            defs = sc.set_names.get(orig, []) if orig is not None else []
+            if len(defs) == 1 and isinstance(defs[0], nodes.Assign):
+                src = defs[0].node
+            el = _elem_source(src)
+            if el is not src:
+                it = _text(el)
+                if not _is_primary(el) and not it.startswith("("):
+                    it = "(" + it + ")"
             base = f"{it}[*]"
             while base in active_loops:
                 base += "'"
@@ -115,7 +150,7 @@ def _walk(body: list[nodes.Node], env: dict[str, str], sc: _Scope, active_loops:
             for t, v in zip(n.targets, n.values):
                 _rename_expr(v, env2)
                 if isinstance(t, nodes.Name) and t.name not in sc.keep:
-                    env2[t.name] = "(" + _cap(_text(v)) + ")"
+                    env2[t.name] = _cap(_text(v)) if _is_primary(v) else "(" + _cap(_text(v)) + ")"
             for t in n.targets:
                 _rename_expr(t, env2)
             _walk(n.body, env2, sc, active_loops)
@@ -148,6 +183,8 @@ def _def_texts(sc: _Scope, env_outer: dict[str, str]) -> dict[str, str]:
         _collect_sets(sc2)
         # targets must keep their spelling in the scratch copy so that they can be told apart: rename expressions only
         targets = {id(d.target): d.target.name for ds in sc2.set_names.values() for d in ds}
+        selfref = {id(d) for nm_, ds in sc2.set_names.items() for d in ds if isinstance(d, nodes.Assign)
+                   and any(x.name == nm_ for x in [d.node, *d.node.find_all(nodes.Name)] if isinstance(x, nodes.Name))}
         env = dict(env_outer)
         env.update(inner)
         _walk(scratch, env, sc2, [])
@@ -165,8 +202,11 @@ def _def_texts(sc: _Scope, env_outer: dict[str, str]) -> dict[str, str]:
                     texts.append(f"block#{k}")
                 else:
                     # a definition that mentions the variable itself (x = x + 1) shows it as a bullet
-                    texts.append(_text(d.node).replace(inner.get(nm, "\0"), "•") if inner.get(nm) not in (None, "•") else _text(d.node))
+                    texts.append(_text(d.node).replace(inner.get(nm, "\0"), "•")
+                                 if id(d) in selfref and inner.get(nm) not in (None, "•") else _text(d.node))
             cand = "(" + _cap("|".join(sorted(set(texts)))) + ")"
+            if len(ds) == 1 and isinstance(ds[0], nodes.Assign) and _is_primary(ds[0].node) and "•" not in texts[0]:
+                cand = _cap(texts[0])
             while cand in used:
                 cand += "'"
             used.add(cand)
